@@ -706,6 +706,15 @@ class Engine:
         if op == "Add" and a.k == TUPLE and b.k == TUPLE:
             yield st, vtuple(a.t + b.t)
             return
+        if op == "Mult" and a.k == REF and isinstance(st.heap[a.t], CList) and b.k in (INT, BOOL):
+            items = st.heap[a.t].items
+            if len(items) == 1 and items[0].k == STR:
+                # [ch] * n : a list of n one-character strings
+                t = py_repeat(st, items[0].t, as_int_term(b))
+                st.assume(z3.Length(items[0].t) == 1) if False else None
+                yield st, st.alloc(CharList(t))
+                return
+            raise ToolLimit("list * int")
         if op == "Mult" and a.k == STR and b.k in (INT, BOOL):
             yield st, vstr(py_repeat(st, a.t, as_int_term(b)))
             return
@@ -1769,7 +1778,14 @@ class _CallMixin:
             raise ToolLimit(f"call to {qual} which has no contract")
         fn = None if c.extern else self.find_def(file, qual)
         if c.extern:
-            yield from self.call_contract(c, None, selfv, pos, kw, st, node, file)
+            # an assumed / elsewhere-proved contract: the real signature (if the function exists and is plain) still binds the arguments
+            try:
+                real = self.find_def(file, qual)
+                if real.args.vararg or real.args.kwarg:
+                    real = None
+            except (KeyError, AttributeError):
+                real = None
+            yield from self.call_contract(c, real, selfv, pos, kw, st, node, file)
         elif c.inline:
             yield from self.call_inline(c, fn, file, qual, selfv, pos, kw, st, node)
         else:
